@@ -1030,10 +1030,10 @@ v("d83-polars-full-join-keys-not-folded", "C16", PM,
   "                        if (ka == kb) and ((ka + \"_da_right_tmp\") in joined_columns)\n", "                        if False\n")
 
 SP = "SparkSQL.py"
-v("d84-spark-backslash-not-escaped", "C14", SP, '            + string.replace("\\\\", "\\\\\\\\").replace(\n', '            + string.replace(\n')
+v("d84-spark-backslash-not-escaped", "C14", SP, '            + string.replace("\\\\", "\\\\\\\\")\n            .replace(self.string_quote', '            + string\n            .replace(self.string_quote')
 v("d84-spark-escape-order-swapped", "C14", SP,
-  '            + string.replace("\\\\", "\\\\\\\\").replace(\n                self.string_quote, "\\\\" + self.string_quote\n            )\n',
-  '            + string.replace(\n                self.string_quote, "\\\\" + self.string_quote\n            ).replace("\\\\", "\\\\\\\\")\n')
+  '            + string.replace("\\\\", "\\\\\\\\")\n            .replace(self.string_quote, "\\\\" + self.string_quote)\n',
+  '            + string.replace(self.string_quote, "\\\\" + self.string_quote)\n            .replace("\\\\", "\\\\\\\\")\n')
 
 v("d95-select-columns-empties-select-list", "C08", SM,
   "        if len(narrowed_terms) > 0:\n            # nothing requested: the sub-step keeps its own select list (an aggregation must stay one)\n            subsql.terms = narrowed_terms\n        return subsql\n\n    def drop_columns_to_near_sql",
@@ -1160,3 +1160,10 @@ v("d145-polars-swapped-join-order-unstated", "C19", PM, "                suffix=
 ECF = "eval_cache.py"
 v("d146-category-cells-not-typed", "C25", ECF, "        if str(d.iloc[:, j].dtype) in (\"object\", \"category\")", "        if str(d.iloc[:, j].dtype) in (\"object\",)")
 v("d146-category-value-dtype-missing", "C25", ECF, "        str(t) if str(t) != \"category\" else f\"category[{t.categories.dtype}]\"\n", "        str(t)\n")
+
+v("d147-uniform-accepted-in-project", "C26", ER2, "    \"uniform\",  # one draw per row, not an aggregation\n    \"_uniform\",\n", "")
+
+SOL = "solutions.py"
+v("d148-mark-pasted-between-quotes", "C14", SOL, "{source_id_column} == {_literal_text(state_row_mark)}).if_else(None, {k})\"", "{source_id_column} == \\\"{state_row_mark}\\\").if_else(None, {k})\"")
+v("d149-spark-literal-keeps-dollar-brace", "C14", SP, "            .replace(\"${\", \"$\\\\{\")\n", "")
+v("d150-sqlite-true-false-not-refused", "C14", SQ, "        if identifier.lower() in [\"true\", \"false\"]:", "        if identifier.lower() in []:")
